@@ -31,6 +31,10 @@ type Sched struct {
 	Trace   []int // thread id at each decision
 	Dead    bool  // all unfinished threads blocked
 
+	// Policy, if set, makes every scheduling decision instead of the choice source (a deterministic, structured
+	// schedule such as "all threads advance to their k-th point before any goes further"); it returns an index into opts.
+	Policy func(s *Sched, opts []int) int
+
 	everBlocked bool
 	waitSeq     atomic.Int64 // incremented whenever the scheduler starts waiting for a thread
 	stuck       chan int64   // monitor -> scheduler: "you have been waiting on seq for a while"
@@ -43,6 +47,7 @@ type sthread struct {
 	blocked bool
 	gid     int64
 	atPoint bool
+	npoints int // points this thread has reached so far
 }
 
 type sevent struct {
@@ -60,6 +65,9 @@ func goid() int64 {
 	}
 	return 0
 }
+
+// NPoints returns the number of points thread id has reached so far.
+func (s *Sched) NPoints(id int) int { return s.threads[id].npoints }
 
 // Current returns the id of the thread holding the token.
 func (s *Sched) Current() int { return s.cur }
@@ -184,6 +192,7 @@ func (s *Sched) Run(src *Src, bodies []func()) {
 						et.done = true
 					} else {
 						et.atPoint = true
+						et.npoints++
 						s.Points++
 					}
 					progressed = true
@@ -225,7 +234,9 @@ func (s *Sched) Run(src *Src, bodies []func()) {
 			}
 		}
 		var pick int
-		if runningEnabled {
+		if s.Policy != nil {
+			pick = opts[s.Policy(s, opts)]
+		} else if runningEnabled {
 			pick = opts[src.Deviate(len(opts))]
 		} else {
 			pick = opts[src.Choose(len(opts))]
@@ -247,6 +258,7 @@ func (s *Sched) Run(src *Src, bodies []func()) {
 					et.done = true
 				} else {
 					et.atPoint = true
+					et.npoints++
 					s.Points++
 				}
 				if et.blocked {
@@ -286,6 +298,7 @@ func (s *Sched) Run(src *Src, bodies []func()) {
 						et.done = true
 					} else {
 						et.atPoint = true
+						et.npoints++
 						s.Points++
 					}
 				}
